@@ -68,7 +68,7 @@ func judge(sc *Scenario, res *result) (misses []miss, classes []string) {
 	var failureInjected, stallExecuted, poisoned bool
 	for _, a := range res.Arrivals {
 		switch a.Step.Kind {
-		case "reset", "partial-reset", "fin":
+		case "reset", "partial-reset", "fin", "garbage":
 			failureInjected = true
 		case "stall":
 			stallExecuted = true
@@ -335,14 +335,17 @@ func judge(sc *Scenario, res *result) (misses []miss, classes []string) {
 
 	// ---- classes
 	near := false
-	terminalCapable := map[string]bool{"reply": true, "reply5xx": true, "reset": true, "partial-reset": true, "fin": true}
+	terminalCapable := map[string]bool{"reply": true, "reply5xx": true, "reset": true, "partial-reset": true, "fin": true, "garbage": true}
 	for _, a := range res.Arrivals {
 		if terminalCapable[a.Step.Kind] && (a.Step.At.Class == "near-try" || a.Step.At.Class == "near-global") {
 			near = true
 		}
 		switch a.Step.Kind {
-		case "reset", "partial-reset", "fin":
+		case "reset", "partial-reset", "fin", "garbage":
 			classes = append(classes, "reset")
+		}
+		if a.Wrote == "garbage" {
+			classes = append(classes, "upstream-answers-garbage")
 		}
 	}
 	if sc.Client.Disconnect {
@@ -393,7 +396,7 @@ func hangCause(sc *Scenario, res *result) string {
 	gt := time.Duration(sc.GlobalMs) * time.Millisecond
 	retried := func(a arrival) bool {
 		switch a.Step.Kind {
-		case "reset", "partial-reset", "fin":
+		case "reset", "partial-reset", "fin", "garbage":
 			return true
 		case "reply5xx":
 			return sc.RetryOn
@@ -431,7 +434,7 @@ func hangCause(sc *Scenario, res *result) string {
 	tt := time.Duration(sc.TryMs) * time.Millisecond
 	for _, a := range res.Arrivals {
 		switch a.Step.Kind {
-		case "reset", "partial-reset", "fin":
+		case "reset", "partial-reset", "fin", "garbage":
 		default:
 			continue
 		}
